@@ -63,6 +63,30 @@ def gen_case(rng, tier):
         import copy
         j = rng.randrange(1, n)
         dsets[j] = copy.deepcopy(dsets[rng.randrange(0, j)])
+    if n >= 2 and rng.random() < 0.5:
+        # a later input names a record file (image, lidar, depth) like one of an earlier input UP TO LETTER CASE (IMG_0001 vs
+        # img_0001): two different files on a case-sensitive file system, both must be transferred.  Images are only renamed
+        # when nothing else of that input refers to them (features, matches, observations).
+        def referenced(d):
+            names = set()
+            for kind in ('keypoints', 'descriptors', 'global_features'):
+                for v in (d.get(kind) or {}).values():
+                    names |= set(v['images'])
+            for pairs in (d.get('matches') or {}).values():
+                for a_, b_ in pairs:
+                    names |= {a_, b_}
+            for o in (d.get('observations') or []):
+                names.add(o[2])
+            return names
+        for part in ('records_camera', 'records_lidar', 'records_depth'):
+            for j in range(1, n):
+                earlier = [p for d0 in dsets[:j] for ts, dev, p in (d0.get(part) or [])]
+                rows = dsets[j].get(part) or []
+                free = [r for r in rows if part != 'records_camera' or r[2] not in referenced(dsets[j])]
+                if earlier and free:
+                    variant = rng.choice(earlier).swapcase()
+                    if variant.lower() != variant.upper() and variant not in [r[2] for r in rows] and variant not in earlier:
+                        rng.choice(free)[2] = variant
     skip = [t for t in mc.TYPE_OF_ATTR.values() if rng.random() < 0.12]
     strategy = rng.choice(['skip', 'copy', 'link_absolute', 'link_relative', 'move'])
     tar = [sorted(k for k in ('keypoints', 'descriptors', 'global_features', 'matches') if rng.random() < 0.3) for _ in range(n)]
